@@ -22,6 +22,7 @@ const (
 	kW2     = 17 // witness ML-DSA-44 cosigner
 	kWfake  = 18 // ML-DSA-44 cosigner with the witness's NAME but another key
 	kM      = 32 // mirror ML-DSA-44 cosigner
+	kMfake  = 33 // ML-DSA-44 cosigner with the MIRROR's name but another key (a line the witness cannot verify)
 	kLogA   = 48 // log key: Ed25519 signed-note key
 	kLogA2  = 49 // another Ed25519 key with the same name (never configured)
 	kLogB   = 64 // log key of the ML-DSA-44 cosignature type
@@ -149,6 +150,9 @@ func newKeyring(r *mrand.Rand) *keyring {
 	s, err = torchwood.NewCosignatureSigner(forName, newMLDSA(r))
 	must(err)
 	cos(kForM, forName, s)
+	s, err = torchwood.NewCosignatureSigner(mirName, newMLDSA(r))
+	must(err)
+	cos(kMfake, mirName, s)
 	return kr
 }
 
